@@ -10,28 +10,32 @@ import (
 	psync "github.com/goplus/llgo/runtime/internal/zzstand/psync"
 )
 
-func LoadUint32(p *uint32) uint32               { psync.AtomicPoint(); return sa.LoadUint32(p) }
-func StoreUint32(p *uint32, v uint32)           { psync.AtomicPoint(); sa.StoreUint32(p, v) }
-func AddUint32(p *uint32, d uint32) uint32      { psync.AtomicPoint(); return sa.AddUint32(p, d) }
-func SwapUint32(p *uint32, v uint32) uint32     { psync.AtomicPoint(); return sa.SwapUint32(p, v) }
+func LoadUint32(p *uint32) uint32               { psync.AtomicPoint(); defer psync.AtomicPoint(); return sa.LoadUint32(p) }
+func StoreUint32(p *uint32, v uint32)           { psync.AtomicPoint(); defer psync.AtomicPoint(); sa.StoreUint32(p, v) }
+func AddUint32(p *uint32, d uint32) uint32      { psync.AtomicPoint(); defer psync.AtomicPoint(); return sa.AddUint32(p, d) }
+func SwapUint32(p *uint32, v uint32) uint32     { psync.AtomicPoint(); defer psync.AtomicPoint(); return sa.SwapUint32(p, v) }
 func CompareAndSwapUint32(p *uint32, o, n uint32) bool {
 	psync.AtomicPoint()
+	defer psync.AtomicPoint()
 	return sa.CompareAndSwapUint32(p, o, n)
 }
-func LoadInt32(p *int32) int32                 { psync.AtomicPoint(); return sa.LoadInt32(p) }
-func StoreInt32(p *int32, v int32)             { psync.AtomicPoint(); sa.StoreInt32(p, v) }
-func AddInt32(p *int32, d int32) int32         { psync.AtomicPoint(); return sa.AddInt32(p, d) }
+func LoadInt32(p *int32) int32                 { psync.AtomicPoint(); defer psync.AtomicPoint(); return sa.LoadInt32(p) }
+func StoreInt32(p *int32, v int32)             { psync.AtomicPoint(); defer psync.AtomicPoint(); sa.StoreInt32(p, v) }
+func AddInt32(p *int32, d int32) int32         { psync.AtomicPoint(); defer psync.AtomicPoint(); return sa.AddInt32(p, d) }
 func CompareAndSwapInt32(p *int32, o, n int32) bool {
 	psync.AtomicPoint()
+	defer psync.AtomicPoint()
 	return sa.CompareAndSwapInt32(p, o, n)
 }
-func LoadPointer(p *unsafe.Pointer) unsafe.Pointer     { psync.AtomicPoint(); return sa.LoadPointer(p) }
-func StorePointer(p *unsafe.Pointer, v unsafe.Pointer) { psync.AtomicPoint(); sa.StorePointer(p, v) }
+func LoadPointer(p *unsafe.Pointer) unsafe.Pointer     { psync.AtomicPoint(); defer psync.AtomicPoint(); return sa.LoadPointer(p) }
+func StorePointer(p *unsafe.Pointer, v unsafe.Pointer) { psync.AtomicPoint(); defer psync.AtomicPoint(); sa.StorePointer(p, v) }
 func SwapPointer(p *unsafe.Pointer, v unsafe.Pointer) unsafe.Pointer {
 	psync.AtomicPoint()
+	defer psync.AtomicPoint()
 	return sa.SwapPointer(p, v)
 }
 func CompareAndSwapPointer(p *unsafe.Pointer, o, n unsafe.Pointer) bool {
 	psync.AtomicPoint()
+	defer psync.AtomicPoint()
 	return sa.CompareAndSwapPointer(p, o, n)
 }
